@@ -41,6 +41,10 @@ type c20Holder struct {
 	index int // model index, -1 until acquired
 	inTR  int // depth of TemporarilyRelease calls of the main goroutine
 	noop  bool
+	// bookkeeping by the harness itself, independent of the package's status word
+	acquired   bool
+	relStarted int
+	relDone    int
 }
 
 type c20TaskState struct {
@@ -92,7 +96,9 @@ func c20Run(c *Ctx, m *Model, sc c20Scenario) {
 				h.inTR--
 			}
 			for i := 0; i < p.Releases; i++ {
+				h.relStarted++
 				h.rel()
+				h.relDone++
 			}
 		})
 		t.User = st
@@ -116,7 +122,9 @@ func c20Run(c *Ctx, m *Model, sc c20Scenario) {
 			}
 			t := s.Go(name, func() {
 				for i := 0; i < p.Releases; i++ {
+					h.relStarted++
 					h.rel()
+					h.relDone++
 				}
 			})
 			t.User = &c20TaskState{prog: p, holder: h}
@@ -203,6 +211,7 @@ func c20Run(c *Ctx, m *Model, sc c20Scenario) {
 		case "acquire.enter":
 			if chanLen() == before+1 {
 				h.index = len(order)
+				h.acquired = true
 				order = append(order, h)
 				label = []interface{}{"acquire"}
 			} else {
@@ -241,10 +250,11 @@ func c20Run(c *Ctx, m *Model, sc c20Scenario) {
 			observed = append(observed, observe())
 		}
 		// property oracle on the implementation
+		// a holder runs from the moment its Acquire took a spot until a release of it starts, except
+		// while its goroutine is inside TemporarilyRelease
 		running := 0
 		for _, hh := range order {
-			_, _, status := cl.VerifState(hh.ctx)
-			if status == 0 && hh.inTR == 0 {
+			if hh.acquired && hh.relStarted == 0 && hh.inTR == 0 {
 				running++
 			}
 		}
@@ -264,8 +274,7 @@ func c20Run(c *Ctx, m *Model, sc c20Scenario) {
 	}
 	allReleased := true
 	for _, hh := range order {
-		_, _, status := cl.VerifState(hh.ctx)
-		if status != 2 {
+		if hh.relDone == 0 {
 			allReleased = false
 		}
 	}
